@@ -8,6 +8,7 @@ import (
 	"bufio"
 	"fmt"
 	"io"
+	"os"
 	"os/exec"
 	"strconv"
 	"strings"
@@ -81,9 +82,14 @@ func startProc(kind string, timeoutMs int) (*proc, error) {
 	return p, nil
 }
 
+var smtLog io.Writer
+
 func (p *proc) send(s string) {
 	io.WriteString(p.in, s)
 	io.WriteString(p.in, "\n")
+	if smtLog != nil {
+		io.WriteString(smtLog, s+"\n")
+	}
 }
 
 func (p *proc) reset(first bool) {
@@ -97,6 +103,9 @@ func (p *proc) reset(first bool) {
 		p.send("(set-logic ALL)")
 	} else {
 		p.send(fmt.Sprintf("(set-option :timeout %d)", p.timeout))
+		if l := os.Getenv("VERIF_Z3_LOGIC"); l != "" {
+			p.send("(set-logic " + l + ")")
+		}
 	}
 }
 
@@ -453,8 +462,12 @@ func (ps *PathSolver) Check(pc []*Term, pcFP bool, extra *Term, vars []*Term) (s
 		}
 		ps.active = nil
 	}
-	if ps.log != nil {
-		fmt.Fprintf(ps.log, "query %s %.3fs %s\n", p.kind, dt, res)
+	if dt > 0.3 && os.Getenv("VERIF_QLOG") != "" {
+		ex := ""
+		if extra != nil {
+			ex = extra.String()
+		}
+		fmt.Fprintf(os.Stderr, "slow query %s %.3fs %s pc=%d extra=%s\n", p.kind, dt, res, len(pc), ex)
 	}
 	if ps.xcheck > 0 && !fp && (res == "sat" || res == "unsat") {
 		ps.xcount++
